@@ -244,7 +244,7 @@ class RangesAssembler:
         sheet_id = base['sheet_id']
         ists = {}
         nodes = dsp.default_values
-        _name = f'{sheet_id}!%s' if sheet_id else '%s'
+        _name = (sheet_id.replace('%', '%%') + '!%s') if sheet_id else '%s'
         for n, r in tuple(self.missing):
             c = _index2col(n)
             ref = '{}{}'.format(c, r)
@@ -325,7 +325,7 @@ class InvRangesAssembler(RangesAssembler):
         res = []
         base = self.assembler.range.ranges[0]
         sheet_id = base['sheet_id']
-        _name = f'{sheet_id}!%s' if sheet_id else '%s'
+        _name = (sheet_id.replace('%', '%%') + '!%s') if sheet_id else '%s'
         for d in self.assembler.outputs.values():
             if isinstance(d, tuple):
                 c, r = d
